@@ -424,6 +424,12 @@ pub fn gen_case<'a>(pool: &'a [PoolKey], workload: &str, seed: u64, index: u64) 
 			}
 			if b & 8 != 0 {
 				spec.crldp = vec![vec![format!("http://{}/x.crl", gen_host(&mut rng))]];
+				// present-but-empty shapes: a distribution point that names no URI, alone or next to one that does
+				match index / 31 {
+					1 => spec.crldp = vec![vec![]],
+					3 => spec.crldp.insert(rng.below(2) as usize, vec![]),
+					_ => {},
+				}
 			}
 			if b & 16 != 0 {
 				spec.use_aki = true;
@@ -584,8 +590,13 @@ pub fn run(ctx: &Ctx, prop: Prop, pool: &[PoolKey], n_random: u64) {
 				},
 				Outcome::Ok(csr) => {
 					if case.must_refuse {
-						if prop == Prop::C07 {
-							ctx.violation("c07:unsupported-field-not-refused", &case.id, &case.text(), "a CSR was produced although the parameters set a field a CSR cannot carry");
+						match prop {
+							Prop::C07 => ctx.violation("c07:unsupported-field-not-refused", &case.id, &case.text(), "a CSR was produced although the parameters set a field a CSR cannot carry"),
+							// whatever was produced is output: its signature, encoding and structure are judged all the same
+							Prop::C01 => check_c01(ctx, &case, &csr, log_before),
+							Prop::C04 => check_c04(ctx, &case, &csr),
+							Prop::C05 => check_c05(ctx, &case, &csr),
+							Prop::C02 | Prop::C08 => {},
 						}
 						return;
 					}
